@@ -8,7 +8,10 @@ import (
 	"encoding/json"
 	"errors"
 	"fmt"
+	"io"
+	"log"
 	"math"
+	"os"
 	"reflect"
 	"regexp"
 	"sort"
@@ -114,6 +117,30 @@ type AState struct {
 	UPol   bool       `json:"upol"`
 	MPol   bool       `json:"mpol"`
 	Lvl    []int      `json:"lvl"`
+	Aux    string     `json:"aux"`
+	Logger string     `json:"logger"`
+}
+
+var givenAux = stackage.Auxiliary{"k": 1}
+var customLogger = log.New(io.Discard, "custom", 0)
+
+func setLoggerArg(s stackage.Stack, arg string) {
+	switch arg {
+	case "int0":
+		s.SetLogger(0)
+	case "int1":
+		s.SetLogger(1)
+	case "int2":
+		s.SetLogger(2)
+	case "int7":
+		s.SetLogger(7)
+	case "custom":
+		s.SetLogger(customLogger)
+	case "nil":
+		s.SetLogger(nil)
+	default:
+		s.SetLogger(arg)
+	}
 }
 
 var lvlNames = []string{"CALLS", "POLICY", "STATE", "DEBUG", "ERROR", "TRACE", "USER1", "USER2", "USER3", "USER4", "USER5", "USER6", "USER7", "USER8", "USER9", "USER10"}
@@ -235,6 +262,12 @@ func (a AState) Canon() AState {
 	}
 	if b.Lvl == nil {
 		b.Lvl = []int{}
+	}
+	if b.Aux == "" {
+		b.Aux = "none"
+	}
+	if b.Logger == "" {
+		b.Logger = "devnull"
 	}
 	return b
 }
@@ -427,6 +460,16 @@ func Build(a AState) *Obj {
 	}
 	if a.HasPol {
 		o.installPolicy(a.Acc)
+	}
+	switch a.Aux {
+	case "empty":
+		o.S.SetAuxiliary()
+	case "given":
+		o.S.SetAuxiliary(givenAux)
+	}
+	switch a.Logger {
+	case "stdout", "stderr", "custom":
+		setLoggerArg(o.S, a.Logger)
 	}
 	if len(a.Lvl) > 0 {
 		bits := 0
@@ -631,6 +674,17 @@ func applyInner(o, d *Obj, c Call) (ret []string) {
 		} else {
 			ret = []string{"nil"}
 		}
+	case "SetAuxiliary":
+		switch c.Str("form") {
+		case "map":
+			o.S.SetAuxiliary(givenAux)
+		case "nil":
+			o.S.SetAuxiliary(nil)
+		default:
+			o.S.SetAuxiliary()
+		}
+	case "SetLogger":
+		setLoggerArg(o.S, c.Str("arg"))
 	case "SetLogLevel":
 		o.S.SetLogLevel(lvlArgs(c, &o.n)...)
 	case "UnsetLogLevel":
@@ -762,6 +816,8 @@ type Obs struct {
 	EqSrc   string     `json:"eqsrc"`
 	UmSrc   string     `json:"umsrc"`
 	LogLvls string     `json:"loglevels"`
+	Aux     string     `json:"aux"`
+	Logger  string     `json:"logger"`
 }
 
 func safeS(f func() string) (s string) {
@@ -860,6 +916,34 @@ func Observe(s stackage.Stack) Obs {
 		return "builtin"
 	})
 	o.LogLvls = safeS(s.LogLevels)
+	o.Aux = safeS(func() string {
+		a := s.Auxiliary()
+		switch {
+		case a == nil:
+			return "none"
+		case reflect.ValueOf(a).Pointer() == reflect.ValueOf(givenAux).Pointer():
+			return "given"
+		case len(a) == 0:
+			return "empty"
+		}
+		return "other"
+	})
+	o.Logger = safeS(func() string {
+		l := s.Logger()
+		switch {
+		case l == nil:
+			return "none"
+		case l == customLogger:
+			return "custom"
+		case l.Writer() == io.Discard:
+			return "devnull"
+		case l.Writer() == os.Stdout:
+			return "stdout"
+		case l.Writer() == os.Stderr:
+			return "stderr"
+		}
+		return "other"
+	})
 	o.EqSrc, o.UmSrc = "none", "none"
 	if live {
 		o.EqSrc = safeS(func() string {
